@@ -5,20 +5,23 @@ from props.corecase import file_to_coq, file_nontrivial, shrink_file, cbytes
 
 ID = "C04"
 HARNESS = "c04"
-N_CASES = {"quick": 24, "thorough": 300}
+N_CASES = {"quick": 20, "thorough": 300}
 N_SEARCH = {"quick": 1, "thorough": 2}
 SHARD = 2
 HAS_MODEL_OUT = True
 RULE = ("pairs (data file f, edit f' that adds / deletes / replaces only records tagged with locations no client of "
         "the comparison is mapped to: at declared names, at zone apexes (NS, SOA), at delegations, at NS targets, at "
-        "lexicographic neighbours of the probed keys, as wildcards above the name); the same 24-40 queries from four "
+        "lexicographic neighbours of the probed keys, as wildcards above the name; and adds / deletes '%' subnets of the "
+        "unnamed default map and of maps no generated name selects, and M / 8 lines of names outside every zone, none "
+        "covering a client address); the same 17-45 queries (5 of them with a client-subnet option whose address lies "
+        "inside such an unrelated subnet; names with an M map and no 8 map, with both, with neither) from four "
         "clients against both files on CDB / RocksDB v1 / RocksDB v2; non-trivial = distinct (query name, type, "
         "client location, response class) other than REFUSED, counted on the edited file")
 TRUSTED_BASE = [
     "client location is the one the server itself computed (oracle); queries whose client is mapped to an edited location are not compared",
     "responses are compared up to which of several weighted addresses were drawn",
 ]
-ASSUMPTIONS = ["the edit does not touch maps or subnets (C03 owns those)"]
+ASSUMPTIONS = ["the edit touches only subnets / maps that apply to none of the queried names and cover no client address (C03 owns the lookup itself)"]
 
 
 def to_coq(c):
